@@ -185,6 +185,15 @@ func verifyMycatHashRuleSliceInfos(locations []int, slices []string, databases [
 		return nil, errors.ErrLocationsCount
 	}
 
+	// the same database twice in one slice would be one physical table listed twice
+	for i := range realDatabaseList {
+		for j := 0; j < i; j++ {
+			if realDatabaseList[i] == realDatabaseList[j] && tableToSlice[i] == tableToSlice[j] {
+				return nil, fmt.Errorf("database %s duplicate in one slice", realDatabaseList[i])
+			}
+		}
+	}
+
 	return tableToSlice, nil
 }
 
